@@ -34,7 +34,7 @@ def write_mc(workdir, name, part, dims=(1, 2, 3), maxrank=1, instances=()):
     cfg = os.path.join(workdir, mod + ".cfg")
     inv = {"shapes": ["ShapesOK"], "update": ["UpdateOK"], "machine": ["DataIsConcatenation"], "list": ["ListOK"]}[part]
     tlc.write_cfg(cfg, spec="Spec", constants={"Part": part, "Dims": "<- DimsDef", "MaxRank": maxrank, "Instances": "<- InstDef"},
-                  invariants=inv, properties=["SourceUntouched"] if part == "machine" else [])
+                  invariants=inv, properties=["SourceUntouched", "DataFixed"] if part == "machine" else [])
     return os.path.join(workdir, mod + ".tla"), cfg
 
 
@@ -52,7 +52,7 @@ def gen_instances(rnd, count):
 
 
 # ---------------------------------------------------------------------------------------------
-def make_model(torch, gpytorch, kind, lik_kind, x, y, noise=None, d=1, requires_grad=True):
+def make_model(torch, gpytorch, kind, lik_kind, x, y, noise=None, d=1, requires_grad=True, mean="const"):
     from checks import gpmodels as G
     if lik_kind == "homo":
         lik = gpytorch.likelihoods.GaussianLikelihood()
@@ -63,8 +63,15 @@ def make_model(torch, gpytorch, kind, lik_kind, x, y, noise=None, d=1, requires_
     elif lik_kind == "mtask":
         lik = gpytorch.likelihoods.MultitaskGaussianLikelihood(num_tasks=2)
     fam = "mtask" if lik_kind == "mtask" else kind
-    model = G.ExactModel(x, y, lik, fam, d).to(torch.float64)
+    model = G.ExactModel(x, y, lik, fam, d)
+    if mean == "linear":              # an input-dependent prior mean (the fantasy points have their own prior mean values)
+        model.mean_module = gpytorch.means.LinearMean(d)
+    model = model.to(torch.float64)
     lik = lik.to(torch.float64)
+    if mean == "linear":
+        with torch.no_grad():
+            model.mean_module.weights.fill_(0.8)
+            model.mean_module.bias.fill_(-0.3)
     with torch.no_grad():
         if lik_kind in ("homo", "mtask"):
             lik.noise = 0.15
@@ -126,6 +133,8 @@ def _worker(item):
     for c in cfgs:
         if c.get("kind") == "modellist":
             out.append(run_list_config(torch, gpytorch, settings, c))
+        elif c.get("tree"):
+            out.append(run_tree_config(torch, gpytorch, settings, c))
         else:
             out.append(run_config(torch, gpytorch, settings, _verif, c))
     return out
@@ -139,11 +148,11 @@ def run_config(torch, gpytorch, settings, _verif, c):
     g = torch.Generator().manual_seed(c["seed"])
     tasks = 2 if lik_kind == "mtask" else 0
     tshape = (tasks,) if tasks else ()
-    desc = "%s/%s model_batch=%s input_batch=%s target_batch=%s fast_pred_var=%s detach=%s depth=%d grad=%s" % (
-        kind, lik_kind, list(MB), list(IB), list(TB), c["fpv"], c["detach"], depth, c["grad"])
+    desc = "%s/%s%s model_batch=%s input_batch=%s target_batch=%s fast_pred_var=%s detach=%s depth=%d grad=%s" % (
+        kind, lik_kind, "/linear-mean" if c.get("mean") == "linear" else "", list(MB), list(IB), list(TB), c["fpv"], c["detach"], depth, c["grad"])
     cell = "C04/%s/%s/mb%d-ib%d-tb%d%s%s" % (kind, lik_kind, len(MB), len(IB), len(TB), "" if c["grad"] else "/nograd",
                                          "/unit-batch-dims" if 1 in (list(MB) + list(TB)) else "")
-    key = [kind, lik_kind, list(MB), list(IB), list(TB), c["fpv"], c["detach"], depth, c["grad"]]
+    key = [kind, lik_kind, list(MB), list(IB), list(TB), c["fpv"], c["detach"], depth, c["grad"], c.get("mean", "const")]
     res = dict(key=key, ok=True, nontrivial=True, sample=dict(config=desc))
 
     def fail(sym, detail):
@@ -154,7 +163,7 @@ def run_config(torch, gpytorch, settings, _verif, c):
     y = torch.sin(3 * x.sum(-1, keepdim=bool(tasks)).expand(*MB, n, *tshape) if tasks else 3 * x.sum(-1)) + 0.1 * torch.randn(*MB, n, *tshape, generator=g, dtype=torch.float64)
     noise = (0.05 + 0.1 * torch.rand(*MB, n, generator=g, dtype=torch.float64)) if lik_kind.startswith("fixed") else None
     xs = torch.rand(ms, d, generator=g, dtype=torch.float64) * 2 - 1
-    model, lik = make_model(torch, gpytorch, kind, lik_kind, x, y, noise, d, c["grad"])
+    model, lik = make_model(torch, gpytorch, kind, lik_kind, x, y, noise, d, c["grad"], c.get("mean", "const"))
     cms = lambda: (settings.fast_pred_var(c["fpv"]), settings.detach_test_caches(c["detach"]))
     from contextlib import ExitStack
 
@@ -222,7 +231,7 @@ def run_config(torch, gpytorch, settings, _verif, c):
         if not torch.equal(fm.train_inputs[0], all_x) or not torch.equal(fm.train_targets, all_y):
             return fail("data-values", "fantasy model's training data is not the concatenation of source data and fantasies")
         # (1) predictions vs a fresh model on the concatenated data
-        fresh, flik = make_model(torch, gpytorch, kind, lik_kind, all_x, all_y, all_noise, d, c["grad"])
+        fresh, flik = make_model(torch, gpytorch, kind, lik_kind, all_x, all_y, all_noise, d, c["grad"], c.get("mean", "const"))
         sd = {k2: v.clone() for k2, v in model.state_dict().items() if "noise_covar.noise" not in k2 or lik_kind == "homo"}
         if lik_kind.startswith("fixed"):
             sd = {k2: v for k2, v in sd.items() if not k2.endswith("noise_covar.noise")}
@@ -368,6 +377,85 @@ def run_list_config(torch, gpytorch, settings, c):
     return res
 
 
+def run_tree_config(torch, gpytorch, settings, c):
+    """A history of the Fantasy.tla machine: GetFantasy(of=k) / Predict(k) in any interleaving over the family tree.  Every model of the
+    tree, whenever it is evaluated, must equal a fresh model on ITS data (source data ++ its chain of fantasies) - whether or not it or its
+    children were evaluated before."""
+    from contextlib import ExitStack
+    kind, lik_kind, mean = c["kind"], c["lik"], c["mean"]
+    n, m, d, ms = 5, 2, 1, 3
+    g = torch.Generator().manual_seed(c["seed"])
+    names = ["%s(%d)" % ("F" if o["a"] == "GetFantasy" else "P", o["of"]) for o in c["ops"]]
+    desc = "%s/%s/%s-mean fast_pred_var=%s history=%s" % (kind, lik_kind, mean, c["fpv"], " ".join(names))
+    cell = "C04/tree/%s/%s/%s-mean" % (kind, lik_kind, mean)
+    res = dict(key=["tree", kind, lik_kind, mean, c["fpv"], names], ok=True, nontrivial=True, sample=dict(config=desc))
+
+    def fail(sym, detail):
+        res.update(ok=False, sig=cell + "/" + sym, detail=desc + ": " + detail, case=c)
+        return res
+
+    x = torch.rand(n, d, generator=g, dtype=torch.float64) * 2 - 1
+    y = torch.sin(3 * x.sum(-1)) + 0.1 * torch.randn(n, generator=g, dtype=torch.float64)
+    noise = (0.05 + 0.1 * torch.rand(n, generator=g, dtype=torch.float64)) if lik_kind.startswith("fixed") else None
+    xs = torch.rand(ms, d, generator=g, dtype=torch.float64) * 2 - 1
+    model, lik = make_model(torch, gpytorch, kind, lik_kind, x, y, noise, d, False, mean)
+
+    def predict(mdl):
+        with ExitStack() as st:
+            st.enter_context(settings.fast_pred_var(c["fpv"]))
+            o = mdl(xs)
+            return o.mean.detach().clone(), o.covariance_matrix.detach().clone()
+
+    ok, r0 = core.guarded(lambda: predict(model))          # the source needs a strategy before it can be fantasized
+    if not ok:
+        return fail("source-predict-raises", r0)
+    tree = [dict(model=model, x=x, y=y, noise=noise, evaluated=True)]
+
+    def check(i, when):
+        t = tree[i]
+        ok, fp = core.guarded(lambda: predict(t["model"]))
+        if not ok:
+            return fail("predict-raises", "model %d (%s): %s" % (i + 1, when, fp))
+        fresh, _ = make_model(torch, gpytorch, kind, lik_kind, t["x"], t["y"], t["noise"], d, False, mean)
+        sd = {k2: v.clone() for k2, v in model.state_dict().items() if not (lik_kind.startswith("fixed") and k2.endswith("noise_covar.noise"))}
+        fresh.load_state_dict(sd, strict=False)
+        rp = predict(fresh)
+        first = "its first evaluation" if not t["evaluated"] else "re-evaluated"
+        t["evaluated"] = True
+        for nm, a, b in (("mean", fp[0], rp[0]), ("covariance", fp[1], rp[1])):
+            good, why = core.close(a, b, 1e-7, 1e-9)
+            if not good:
+                return fail(nm + ("/first-evaluation-after-it-was-fantasized" if (first.startswith("its") and t.get("children")) else ""),
+                            "model %d (%s, %s, %d children): %s differs from conditioning on its data from scratch: %s" % (
+                                i + 1, when, first, t.get("children", 0), nm, why))
+        return None
+
+    for step, o in enumerate(c["ops"]):
+        k = o["of"] - 1
+        if o["a"] == "GetFantasy":
+            xf = torch.rand(m, d, generator=g, dtype=torch.float64) * 2 - 1
+            yf = torch.randn(m, generator=g, dtype=torch.float64) * 0.5
+            nf = (0.05 + 0.1 * torch.rand(m, generator=g, dtype=torch.float64)) if noise is not None else None
+            kw = {"noise": nf} if nf is not None else {}
+            with ExitStack() as st:
+                st.enter_context(settings.fast_pred_var(c["fpv"]))
+                ok, fm = core.guarded(lambda: tree[k]["model"].get_fantasy_model(xf, yf, **kw))
+            if not ok:
+                return fail("raises", "step %d get_fantasy_model of model %d raised %s" % (step, k + 1, fm))
+            tree[k]["children"] = tree[k].get("children", 0) + 1
+            tree.append(dict(model=fm, x=torch.cat([tree[k]["x"], xf], -2), y=torch.cat([tree[k]["y"], yf], -1),
+                             noise=None if noise is None else torch.cat([tree[k]["noise"], nf], -1), evaluated=False))
+        else:
+            bad = check(k, "step %d" % step)
+            if bad:
+                return bad
+    for i in range(len(tree)):                                # closing observation of every model of the tree
+        bad = check(i, "closing")
+        if bad:
+            return bad
+    return res
+
+
 def run(ck):
     thorough = ck.tier == "thorough"
     core.setup_torch()
@@ -386,7 +474,7 @@ def run(ck):
     mod, cfg = write_mc(wd, "update", "update", instances=insts)
     jobs.append(((mod, cfg), dict(name=PID + "/update", check=False, workers=8, timeout=1500)))
     mod, cfg = write_mc(wd, "machine", "machine")
-    jobs.append(((mod, cfg), dict(name=PID + "/machine", check=False, workers=2)))
+    jobs.append(((mod, cfg), dict(name=PID + "/machine", check=False, workers=2, dump=True)))
     mod, cfg = write_mc(wd, "list", "list")
     jobs.append(((mod, cfg), dict(name=PID + "/list", dump=True, check=False, workers=2)))
     rs = tlc.run_many(jobs, parallel=4)
@@ -420,6 +508,25 @@ def run(ck):
             for grad in (True, False):
                 cfgs.append(dict(kind="kiss", lik="homo", MB=list(MB), IB=list(IB), TB=list(TB), meaning=list(meaning), fpv=False, detach=True,
                                  depth=1, grad=grad, seed=ck.seed * 1000 + len(cfgs)))
+            for knd in ("kiss", "exact"):            # input-dependent prior mean
+                for fpv in (False, True):
+                    cfgs.append(dict(kind=knd, lik="homo", mean="linear", MB=list(MB), IB=list(IB), TB=list(TB), meaning=list(meaning), fpv=fpv, detach=True,
+                                     depth=2, grad=False, seed=ck.seed * 1000 + len(cfgs)))
+    # histories of the family-tree machine (creations and evaluations interleaved), maximal ones
+    hists = set()
+    for st in rs[2].states():
+        o = st["out"]
+        if len(o) == 5 or (len(o) >= 3 and len(st["c"]["models"]) == 4):
+            hists.add(tuple((str(e["a"]), int(e["of"])) for e in o))
+    hists = sorted(h for h in hists if any(a == "GetFantasy" for a, _ in h))
+    if not hists:
+        ck.vacuous("no family-tree histories generated")
+    ck.section("tree", histories=len(hists))
+    combos = [("kiss", "homo", "const"), ("kiss", "homo", "linear"), ("exact", "homo", "linear"), ("exact", "fixed+learned", "const")]
+    for j, h in enumerate(hists):
+        for q, (knd, lk, mn) in enumerate(combos):
+            if thorough or (j + q) % 4 == 0:
+                cfgs.append(dict(tree=True, kind=knd, lik=lk, mean=mn, fpv=bool((j + q) % 2), ops=[dict(a=a, of=k) for a, k in h], seed=ck.seed * 1000 + len(cfgs)))
     lists = [dict(members=[str(x) for x in st["c"]["members"]], noise=[str(x) for x in st["c"]["noise"]]) for st in rs[3].states()]
     if not lists:
         ck.vacuous("no model-list cases generated")
@@ -440,6 +547,8 @@ def replay(rep):
     from gpytorch import settings
     if rep["case"].get("kind") == "modellist":
         r = run_list_config(torch, gpytorch, settings, rep["case"])
+    elif rep["case"].get("tree"):
+        r = run_tree_config(torch, gpytorch, settings, rep["case"])
     else:
         r = run_config(torch, gpytorch, settings, None, rep["case"])
     if not r["ok"]:
